@@ -7,6 +7,9 @@
 (*         the finally block do (normal, break, continue, return, throw, labelled exits),        *)
 (*         inside an outer try                                                                   *)
 (*     ER  error objects of runtime errors: constructor, Error, name, line / column              *)
+(*     EL  where the faulting node stands inside its statement                                   *)
+(*     RP  n rounds of throw-and-catch in ONE evaluation (site pair x handler placement x        *)
+(*         intermediate try x n, n up to more than the engine's nesting budget)                  *)
 (*   Judge: as C05 (MiniJS next to the engine's log and outcome); ShiftJudge: the same program   *)
 (*   rendered k lines lower and k columns to the right reports locations shifted by exactly k.   *)
 EXTENDS C05
@@ -230,7 +233,8 @@ RPNativeSites == RPSites \ {"plain", "rterr"}
 RPHandlers == {"inner", "direct", "caller", "native", "under"}
 RPMids == {"none", "finally", "rethrow"}
 RPMany == 110
-RPCounts == {1, 4, RPMany}
+RPMore == 260                                       \* thorough only
+RPCounts == {1, 4, RPMany} \cup (IF Quick THEN {} ELSE {RPMore})
 RPI == Var("i")
 \* what the handler adds to the checksum: the number itself, the length of a string, the length of an error's name
 RPVal == Cond(Bin("==", TypeOf(Var("e9")), EStr("number")), Var("e9"),
@@ -291,12 +295,14 @@ RPProg(c) ==
 RPAll == [sa : RPSites, sb : RPSites, h : RPHandlers, md : RPMids, hf : BOOLEAN, n : RPCounts]
 RPValid(c) == /\ RPIdx(c.sa) <= RPIdx(c.sb)                                       \* rounds alternate: the pair is unordered
               /\ (c.h = "inner" => "sortcmp" \notin {c.sa, c.sb})                 \* a comparator that returns: sorting is not modelled
-RPLong(c) == c.n = RPMany
+RPLong(c) == c.n >= RPMany
 \* thorough: the full product for n in {1, 4}; for RPMany every pair of sites x placement, and every single site with
-\* every md / hf.  quick: for n = 4 every pair of sites (handler in the caller), every single site at every placement, with
+\* every md / hf; RPMore rounds for every single site (handler in the caller).  quick: for n = 4 every pair of sites (handler in the caller), every single site at every placement, with
 \* every md and with hf; for RPMany every single site with the handler in the caller, one callback site at every placement,
 \* an accessor site below a second built-in, a mixed pair, every md and hf once; n = 1 for every single site.
-RPThoroughSel(c) == ~RPLong(c) \/ (c.md = "none" /\ ~c.hf) \/ c.sa = c.sb
+RPThoroughSel(c) == \/ ~RPLong(c)
+                    \/ (c.n = RPMany /\ ((c.md = "none" /\ ~c.hf) \/ c.sa = c.sb))
+                    \/ (c.n = RPMore /\ c.sa = c.sb /\ c.h = "caller" /\ c.md = "none" /\ ~c.hf)
 RPQuickSel(c) ==
   LET plainly == c.md = "none" /\ ~c.hf  single == c.sa = c.sb IN
   \/ (c.n = 4 /\ c.h = "caller" /\ plainly)
